@@ -77,6 +77,17 @@ def check(run):
     for ob, ok, msg in e3.run_unit(run, "C01-registered", c20.aggregate_unit(run.tier)):
         if not ok:
             run.violation("C01-registered", ob["key"], "%s: %s" % (ob["desc"], msg), "include/yorel/yomm2/templates.hpp")
+    # a definition may call on with the virtual_ptr it received: that pointer must still carry the v-table pointer of the OBJECT's class
+    # (cast<> and the converting constructors copy it), or the nested call dispatches as if the object were of the definition's class
+    from . import c09
+    run.rule("C01-carry", "virtual_ptr arguments reach the definition with the caller's v-table pointer (cast<> / converting constructors copy it)", floor=4)
+    for x in ("C01-y0", "C01-y1", "C01-y3"):
+        run.rule(x, "(decided by C09)", floor=0)
+    for u in callpath.build_units(run, ["release"] if run.tier == "quick" else ["release", "debug", "p_ind"], ["V", "W", "X", "Y"], ndebug=True, tag="c11v"):
+        c09.ir_rules(run, u, "C01-y0", "C01-y1", "C01-carry", "C01-y3")
+    run.violations = [v for v in run.violations if not v["rule"].startswith("C01-y")]
+    for x in ("C01-y0", "C01-y1", "C01-y3"):
+        del run.rules[x]
     from .. import crules as _cr
     _cr.basemap_rules(run, "C01-bases")
     _cr.facet_rules(run, "C01-facets")
